@@ -333,26 +333,87 @@ def run(repo, rep, tier):
         raise AnalysisError('remove_server vanished')
     r2.sites += 1
     r2.functions.add(rs.fq)
-    dels = [n for n in walk_no_nested(rs.node) if isinstance(n, ast.Call) and
-            dotted(n.func) == 'server.conn.DeleteInstance']
-    ok = len(dels) == 3 and all(norm(d.args[0]) == 'inst.path' for d in dels)
-    srcs = [norm(n.value) for n in walk_no_nested(rs.node)
-            if isinstance(n, ast.Assign) and norm(n.targets[0]) == 'inst_list']
-    ok = ok and sorted(srcs) == sorted(
-        ['self._owned_subscriptions[server_id]',
-         'self._owned_filters[server_id]',
-         'self._owned_destinations[server_id]'])
-    # order: subscriptions first (they reference the others)
-    ok = ok and srcs and srcs[0] == 'self._owned_subscriptions[server_id]'
-    insts = [norm(n.value) for n in walk_no_nested(rs.node)
-             if isinstance(n, ast.Assign) and norm(n.targets[0]) == 'inst']
-    ok = ok and all(v == 'inst_list[i]' for v in insts) and len(insts) == 3
+    # Which lists are drained through DeleteInstance, in which order?  The
+    # deleted path must be `<elem>.path` with <elem> an element of a list
+    # that resolves (through local aliases and the parameters of helper
+    # methods) to one of the three owned lists.
+    OWNED = ['self._owned_subscriptions[server_id]',
+             'self._owned_filters[server_id]',
+             'self._owned_destinations[server_id]']
+
+    def resolve_list(e, f, bind):
+        for _ in range(4):
+            if isinstance(e, ast.Name):
+                if e.id in bind:
+                    return bind[e.id]
+                defs = [n.value for n in walk_no_nested(f.node)
+                        if isinstance(n, ast.Assign) and
+                        len(n.targets) == 1 and
+                        norm(n.targets[0]) == e.id]
+                if len(defs) >= 1 and all(norm(d) == norm(defs[0])
+                                          for d in defs):
+                    e = defs[0]
+                    continue
+                if defs:
+                    return [norm(d) for d in defs]
+            break
+        return norm(e)
+
+    def drained(f, bind, depth=0):
+        out = []
+        calls = [n for n in walk_no_nested(f.node) if isinstance(n, ast.Call)]
+        calls.sort(key=lambda c: (c.lineno, c.col_offset))
+        for c in calls:
+            d = dotted(c.func) or ''
+            if d.endswith('.DeleteInstance') and c.args:
+                a = c.args[0]
+                src = None
+                if isinstance(a, ast.Attribute) and a.attr == 'path' and \
+                        isinstance(a.value, ast.Name):
+                    ev = a.value.id
+                    for n in walk_no_nested(f.node):
+                        if isinstance(n, ast.Assign) and \
+                                norm(n.targets[0]) == ev and \
+                                isinstance(n.value, ast.Subscript):
+                            src = resolve_list(n.value.value, f, bind)
+                        elif isinstance(n, ast.For) and \
+                                norm(n.target) == ev:
+                            it = n.iter
+                            if isinstance(it, ast.Call) and it.args and \
+                                    dotted(it.func) in ('list', 'reversed',
+                                                        'tuple'):
+                                it = it.args[0]
+                            src = resolve_list(it, f, bind)
+                out.append((src, c, f))
+            elif d.startswith('self.') and d.count('.') == 1 and depth < 2:
+                m = mgr.methods.get(d[5:])
+                if m is not None and m is not f:
+                    ps = [p_ for p_ in m.params if p_ not in ('self', 'cls')]
+                    b2 = {}
+                    for p_, a in zip(ps, c.args):
+                        b2[p_] = resolve_list(a, f, bind)
+                    for k in c.keywords:
+                        if k.arg:
+                            b2[k.arg] = resolve_list(k.value, f, bind)
+                    out += drained(m, b2, depth + 1)
+        return out
+    dl = drained(rs, {})
+    flat = []
+    for src, c, f_ in dl:
+        if isinstance(src, list):
+            flat += src
+        else:
+            flat.append(src)
+    order = list(dict.fromkeys(flat))
+    ok = bool(dl) and set(order) == set(OWNED) and order[0] == OWNED[0]
+    srcs = order
     r2.ob(ok, 'remove_server:only-owned', {'deletes_from': srcs})
     if not ok:
         rep.finding(r2, rs.qualname, 'DeleteInstance(inst.path)',
                     'remove-server', SM, rs.node.lineno,
                     'remove_server does not delete exactly the instances of '
-                    'the three owned lists (subscriptions first)')
+                    'the three owned lists (subscriptions first): it deletes '
+                    'elements of %s' % order)
 
     # ---- R2c: what a _create_* function returns is this manager's own ----
     # Under `owned`, a returned instance either was just created (and is
